@@ -220,6 +220,20 @@ def checkFCB (expected fcb : Bool) : Bool × Bool :=
 def userDataOf (buf : List Nat) (start : Nat) (len : Int) : List Nat :=
   (buf.drop start).take len.toNat
 
+/-- the response to a poll: the data (FC 8) or "no data" (single character when allowed, else FC 9) -/
+def SecU.answer (s : SecU) (asdu : Option (List Nat)) : SecU × List Obs :=
+  let acd := !s.c1.isEmpty
+  match asdu with
+  | some d =>
+    let (l, o) := s.ll.sendVar 8 s.ll.address false false acd false d
+    ({ s with ll := l }, o)
+  | none =>
+    if s.ll.p.singleAck && !acd then
+      let (l, o) := s.ll.sendSingle; ({ s with ll := l }, o)
+    else
+      let (l, o) := s.ll.sendFixed 9 s.ll.address false false acd false
+      ({ s with ll := l }, o)
+
 /-- answer of a class-1 / class-2 poll -/
 def SecU.poll (s : SecU) (cls1 : Bool) (fcb fcv : Bool) : SecU × List Obs :=
   let (valid, exp') := if fcv then checkFCB s.expectedFcb fcb else (true, s.expectedFcb)
@@ -233,17 +247,7 @@ def SecU.poll (s : SecU) (cls1 : Bool) (fcb fcv : Bool) : SecU × List Obs :=
       match q with
       | some d => ({ s with ll := { s.ll with userData := d } }, some d)
       | none => ({ s with ll := { s.ll with userData := [] } }, none)
-  let acd := !s.c1.isEmpty
-  match asdu with
-  | some d =>
-    let (l, o) := s.ll.sendVar 8 s.ll.address false false acd false d
-    ({ s with ll := l }, o)
-  | none =>
-    if s.ll.p.singleAck && !acd then
-      let (l, o) := s.ll.sendSingle; ({ s with ll := l }, o)
-    else
-      let (l, o) := s.ll.sendFixed 9 s.ll.address false false acd false
-      ({ s with ll := l }, o)
+  s.answer asdu
 
 /-- ACK as single character (when configured and allowed here) or fixed frame FC 0 -/
 def SecU.ack (s : SecU) (acd singleOk : Bool) : SecU × List Obs :=
